@@ -228,6 +228,39 @@ struct FsState {
     crashed: bool,
     names: HashMap<String, i64>,
     dir: String,
+    /// end-to-end runs: every call is also appended here with a global sequence number
+    /// taken while this state is locked
+    seq_log: Option<Arc<Mutex<Vec<(u64, Value)>>>>,
+    /// end-to-end runs: the k-th write / sync_all call blocks until the gate is released
+    stall_at: Option<usize>,
+    ws_calls: usize,
+    gate: Option<Arc<StallGate>>,
+    /// end-to-end runs: open_new fails this many times once `ncalls` exceeds the index
+    nocreate_from: Option<usize>,
+    nocreate_left: usize,
+}
+
+/// A filesystem call parks here while the filesystem is stalled.
+#[derive(Default)]
+pub struct StallGate {
+    stalled: Mutex<bool>,
+    cv: std::sync::Condvar,
+}
+
+impl StallGate {
+    pub fn is_stalled(&self) -> bool {
+        *self.stalled.lock().unwrap()
+    }
+    pub fn release(&self) {
+        *self.stalled.lock().unwrap() = false;
+        self.cv.notify_all();
+    }
+    fn wait(&self) {
+        let mut g = self.stalled.lock().unwrap();
+        while *g {
+            g = self.cv.wait(g).unwrap();
+        }
+    }
 }
 
 impl FsState {
@@ -238,6 +271,14 @@ impl FsState {
             None => return (UNKNOWN, s),
         };
         (self.names.get(&file).copied().unwrap_or(UNKNOWN), file)
+    }
+
+    fn record(&mut self, op: String, n: i64, tok: i64, res: String) {
+        if let Some(sl) = &self.seq_log {
+            let seq = emit_batcher::verif::next_seq();
+            sl.lock().unwrap().push((seq, json!({"ev": "call", "op": op, "n": n, "tok": tok, "res": res})));
+        }
+        self.log.push((op, n, tok, res));
     }
 
     /// The scripted outcome of the next call; crashes the "process" at the crash point.
@@ -276,7 +317,7 @@ impl VerifFilesystem for MemFs {
         let mut s = lock(&self.0);
         let o = s.outcome();
         let res = if o == "ok" { "ok" } else { "err" };
-        s.log.push(("mkdir".into(), NONE, 0, res.into()));
+        s.record("mkdir".into(), NONE, 0, res.into());
         if res == "ok" { Ok(()) } else { Err(ioerr(io::ErrorKind::Other, "injected")) }
     }
 
@@ -284,7 +325,7 @@ impl VerifFilesystem for MemFs {
         let mut s = lock(&self.0);
         let o = s.outcome();
         let res = if o == "ok" { "ok" } else { "err" };
-        s.log.push(("syncdir".into(), NONE, 0, res.into()));
+        s.record("syncdir".into(), NONE, 0, res.into());
         if res == "ok" {
             for f in s.files.values_mut() {
                 f.entry_synced = true;
@@ -299,7 +340,7 @@ impl VerifFilesystem for MemFs {
         let mut s = lock(&self.0);
         let o = s.outcome();
         let res = if o == "ok" { "ok" } else { "err" };
-        s.log.push(("list".into(), NONE, 0, res.into()));
+        s.record("list".into(), NONE, 0, res.into());
         if res == "ok" {
             let dir = s.dir.clone();
             Ok(s.files.keys().map(|f| PathBuf::from(format!("{dir}/{f}"))).collect())
@@ -313,7 +354,7 @@ impl VerifFilesystem for MemFs {
         let (n, file) = s.name_of(path);
         let o = s.outcome();
         let res = if o == "ok" && s.files.contains_key(&file) { "ok" } else { "err" };
-        s.log.push(("remove".into(), n, 0, res.into()));
+        s.record("remove".into(), n, 0, res.into());
         if res == "ok" {
             s.files.remove(&file);
             Ok(())
@@ -325,9 +366,13 @@ impl VerifFilesystem for MemFs {
     fn open_new(&self, path: &Path) -> io::Result<Box<dyn VerifFile + Send + Sync>> {
         let mut s = lock(&self.0);
         let (n, file) = s.name_of(path);
-        let o = s.outcome();
+        let mut o = s.outcome();
+        if s.nocreate_left > 0 && s.nocreate_from.map(|k| s.ncalls > k).unwrap_or(false) {
+            s.nocreate_left -= 1;
+            o = "err".to_string();
+        }
         let res = if o == "ok" && !s.files.contains_key(&file) { "ok" } else { "err" };
-        s.log.push(("opennew".into(), n, 0, res.into()));
+        s.record("opennew".into(), n, 0, res.into());
         if res == "ok" {
             s.files.insert(file.clone(), MemFile::default());
             Ok(Box::new(MemHandle { fs: self.0.clone(), file, n }))
@@ -341,7 +386,7 @@ impl VerifFilesystem for MemFs {
         let (n, file) = s.name_of(path);
         let o = s.outcome();
         let res = if o == "ok" && s.files.contains_key(&file) { "ok" } else { "err" };
-        s.log.push(("openex".into(), n, 0, res.into()));
+        s.record("openex".into(), n, 0, res.into());
         if res == "ok" {
             Ok(Box::new(MemHandle { fs: self.0.clone(), file, n }))
         } else {
@@ -350,8 +395,33 @@ impl VerifFilesystem for MemFs {
     }
 }
 
+/// End-to-end runs: the scripted write / sync_all call blocks (outside the state lock) until
+/// the harness releases the gate.
+fn maybe_stall(fs: &Arc<Mutex<FsState>>) {
+    let gate = {
+        let mut s = lock(fs);
+        s.ws_calls += 1;
+        if s.stall_at == Some(s.ws_calls) {
+            if let (Some(g), Some(sl)) = (s.gate.clone(), s.seq_log.clone()) {
+                *g.stalled.lock().unwrap() = true;
+                let seq = emit_batcher::verif::next_seq();
+                sl.lock().unwrap().push((seq, json!({"ev": "Stall"})));
+                Some(g)
+            } else {
+                None
+            }
+        } else {
+            None
+        }
+    };
+    if let Some(g) = gate {
+        g.wait();
+    }
+}
+
 impl VerifFile for MemHandle {
     fn write(&mut self, buf: &[u8]) -> io::Result<usize> {
+        maybe_stall(&self.fs);
         let mut s = lock(&self.fs);
         if s.pending_err {
             // second half of a short write: part of the same specification-level call
@@ -365,7 +435,7 @@ impl VerifFile for MemHandle {
             "short" if buf.len() > 1 => "short",
             _ => "err",
         };
-        s.log.push(("write".into(), self.n, tok, res.into()));
+        s.record("write".into(), self.n, tok, res.into());
         let file = self.file.clone();
         match res {
             "ok" => {
@@ -389,7 +459,7 @@ impl VerifFile for MemHandle {
         let mut s = lock(&self.fs);
         let o = s.outcome();
         let res = if o == "ok" { "ok" } else { "err" };
-        s.log.push(("flush".into(), self.n, 0, res.into()));
+        s.record("flush".into(), self.n, 0, res.into());
         if res == "ok" { Ok(()) } else { Err(ioerr(io::ErrorKind::Other, "injected")) }
     }
 
@@ -397,7 +467,7 @@ impl VerifFile for MemHandle {
         let mut s = lock(&self.fs);
         let o = s.outcome();
         let res = if o == "ok" { "ok" } else { "err" };
-        s.log.push(("len".into(), self.n, 0, res.into()));
+        s.record("len".into(), self.n, 0, res.into());
         if res == "ok" {
             Ok(s.files.get(&self.file).map(|f| f.synced.len() + f.unsynced.iter().map(|c| c.len()).sum::<usize>()).unwrap_or(0))
         } else {
@@ -406,10 +476,11 @@ impl VerifFile for MemHandle {
     }
 
     fn sync_all(&mut self) -> io::Result<()> {
+        maybe_stall(&self.fs);
         let mut s = lock(&self.fs);
         let o = s.outcome();
         let res = if o == "ok" { "ok" } else { "err" };
-        s.log.push(("sync".into(), self.n, 0, res.into()));
+        s.record("sync".into(), self.n, 0, res.into());
         if res == "ok" {
             let file = self.file.clone();
             if let Some(f) = s.files.get_mut(&file) {
@@ -1020,4 +1091,363 @@ pub fn main_with(prop: &str) {
     rep.extra.insert("sample_index".into(), json!(index));
     rep.extra.insert("lexes".into(), json!(lexes.iter().map(|l| l.label).collect::<Vec<_>>()));
     rep.write(out);
+}
+
+// ------------------------------------------------------------------------------------------
+// end-to-end: a REAL FileSet (emit_file::verif::spawn_with: real FileSetInner, real
+// emit_batcher channel + worker thread, real Worker::on_batch) over the injected filesystem,
+// several emitting threads; the recorded trace is decided by TLC (spec/FileEmitterTrace.tla)
+
+pub mod inj {
+    use super::*;
+    use emit::Emitter;
+    use std::cell::Cell;
+    use std::sync::atomic::{AtomicBool, AtomicI64, AtomicU64, AtomicUsize, Ordering};
+    use std::time::{Duration, Instant};
+
+    type Trace = Arc<Mutex<Vec<(u64, Value)>>>;
+
+    thread_local! {
+        /// the event the current thread is emitting (read by the channel's send hook)
+        static CURRENT_EVENT: Cell<i64> = const { Cell::new(0) };
+    }
+
+    /// Receives the channel's hook events (emit_batcher::verif) for the running scenario.
+    struct ChanHooks {
+        trace: Mutex<Option<Trace>>,
+        exec_returned: AtomicBool,
+    }
+
+    impl emit_batcher::verif::Hooks for ChanHooks {
+        fn point(&self, _site: &'static str) {}
+
+        fn event(&self, e: emit_batcher::verif::Event) {
+            let Some(trace) = self.trace.lock().unwrap().clone() else {
+                return;
+            };
+            let pending = e.snapshot.map(|s| s.pending).unwrap_or(0);
+            let v = match e.kind {
+                "send" => json!({"ev": "Send", "e": CURRENT_EVENT.with(|c| c.get()), "trunc": e.a, "pushed": e.b, "pending": pending}),
+                "take" => json!({"ev": "Take", "n": pending}),
+                "attempt_ok" => json!({"ev": "End", "res": "ok", "nrest": 0}),
+                "attempt_failed" => json!({"ev": "End", "res": if e.a == 1 { "retry" } else { "noretry" }, "nrest": e.b}),
+                "attempt_panicked" => json!({"ev": "End", "res": "panic", "nrest": 0}),
+                "batch_end" => json!({"ev": "BatchEnd"}),
+                "try_send" | "when_empty" => json!({"ev": "ChanOther", "kind": e.kind}),
+                "exec_return" => {
+                    self.exec_returned.store(true, Ordering::SeqCst);
+                    return;
+                }
+                _ => return,
+            };
+            trace.lock().unwrap().push((e.seq, v));
+        }
+    }
+
+    fn log(trace: &Trace, v: Value) {
+        let seq = emit_batcher::verif::next_seq();
+        trace.lock().unwrap().push((seq, v));
+    }
+
+    /// The environment's clock and random ids: the clock stands still until ten ids were
+    /// drawn, then moves to the next counter value / period, so that names never collide.
+    struct Env {
+        lex: Lex,
+        p: i64,
+        ms: i64,
+        rid: i64,
+        trace: Trace,
+    }
+
+    #[derive(Clone)]
+    struct EnvClock(Arc<Mutex<Env>>);
+    impl emit::Clock for EnvClock {
+        fn now(&self) -> Option<emit::Timestamp> {
+            let e = self.0.lock().unwrap();
+            // the worker reads the clock once, on entering on_batch
+            log(&e.trace, json!({"ev": "Begin", "p": e.p, "ms": e.ms}));
+            emit::Timestamp::from_unix(Duration::from_millis(e.lex.unix_millis(e.p, e.ms)))
+        }
+    }
+
+    #[derive(Clone)]
+    struct EnvRng(Arc<Mutex<Env>>);
+    impl emit::Rng for EnvRng {
+        fn fill<A: AsMut<[u8]>>(&self, mut arr: A) -> Option<A> {
+            let mut e = self.0.lock().unwrap();
+            let v = id_of_rid(e.rid) as u64 | 0xdead_beef_0000_0000;
+            e.rid += 1;
+            if e.rid == 10 {
+                e.rid = 0;
+                if e.ms < 2 {
+                    e.ms += 1;
+                } else if e.p < 5 {
+                    e.p += 1;
+                    e.ms = 0;
+                }
+            }
+            let bytes = v.to_le_bytes();
+            for (i, b) in arr.as_mut().iter_mut().enumerate() {
+                *b = bytes[i % 8];
+            }
+            Some(arr)
+        }
+    }
+
+    fn metric(files: &emit_file::FileSet, name: &str) -> Option<usize> {
+        use emit::metric::Source;
+        let found = Cell::new(None);
+        files.metric_source().sample_metrics(emit::metric::sampler::from_fn(|m| {
+            if m.name().to_string() == name {
+                found.set(m.value().by_ref().cast::<usize>());
+            }
+        }));
+        found.get()
+    }
+
+    pub struct Meta {
+        pub events: usize,
+        pub emits: usize,
+        pub flushes: usize,
+        pub wall_ms: u128,
+    }
+
+    fn run_scenario(hooks: &Arc<ChanHooks>, scen: &Value, sid: u64, rng: &mut Rng, out: &mut impl std::io::Write) -> Meta {
+        let t0 = Instant::now();
+        let lexes = lexes();
+        let lex = lexes[rng.below(lexes.len() as u64) as usize].clone();
+        let cap = scen["cap"].as_u64().unwrap() as usize;
+        let max_files = scen["maxFiles"].as_u64().unwrap() as usize;
+        let max_size = scen["maxSize"].as_u64().unwrap() as usize;
+        let reuse = scen["reuse"].as_bool().unwrap();
+        let fault_kind = scen["fault"]["kind"].as_str().unwrap().to_string();
+        let fault_at = scen["fault"]["at"].as_u64().unwrap() as usize;
+        let stall = scen["stall"].as_u64().unwrap() as usize;
+
+        let trace: Trace = Default::default();
+        let gate = Arc::new(StallGate::default());
+        let mut script = vec!["ok".to_string(); fault_at + 16];
+        match fault_kind.as_str() {
+            "err" => script[fault_at - 1] = "err".into(),
+            "short" => script[fault_at - 1] = "short".into(),
+            "burst" => {
+                for s in script.iter_mut().skip(fault_at - 1).take(14) {
+                    *s = "err".into();
+                }
+            }
+            _ => {}
+        }
+        let state = Arc::new(Mutex::new(FsState {
+            names: lex.table(),
+            dir: lex.dir.to_string(),
+            script,
+            seq_log: Some(trace.clone()),
+            stall_at: if stall > 0 { Some(stall) } else { None },
+            gate: Some(gate.clone()),
+            nocreate_from: if fault_kind == "nocreate" { Some(fault_at) } else { None },
+            nocreate_left: if fault_kind == "nocreate" { 12 } else { 0 },
+            ..Default::default()
+        }));
+        {
+            let mut s = lock(&state);
+            for f in &lex.foreign {
+                s.files.insert(f.clone(), MemFile { synced: format!("foreign {f}\n").into_bytes(), unsynced: vec![], entry_synced: true });
+            }
+        }
+        let env = Arc::new(Mutex::new(Env { lex: lex.clone(), p: 1, ms: 0, rid: 0, trace: trace.clone() }));
+        *hooks.trace.lock().unwrap() = Some(trace.clone());
+        hooks.exec_returned.store(false, Ordering::SeqCst);
+
+        let files = emit_file::verif::spawn_with(
+            MemFs(state.clone()),
+            EnvClock(env.clone()),
+            EnvRng(env.clone()),
+            format!("{}/{}.{}", lex.dir, lex.prefix, lex.ext),
+            lex.roll,
+            reuse,
+            max_files,
+            max_size,
+            b"\n",
+            |buf, evt| {
+                use emit::Props;
+                let e = evt.props().pull::<i64, _>("id").unwrap_or(0);
+                let bytes = ev_bytes(e);
+                if e % 2 == 0 {
+                    // this writer leaves the separator to the emitter for every second event
+                    buf.extend_from_slice(&bytes[..bytes.len() - 1]);
+                } else {
+                    buf.extend_from_slice(&bytes);
+                }
+                Ok(())
+            },
+            cap,
+        )
+        .unwrap_or_else(|e| tool_error(&format!("spawn_with failed: {e}")));
+        let files = Arc::new(files);
+
+        // the emitting threads' programs
+        let nthreads = 2 + rng.below(2) as usize;
+        let nevents = 5 + rng.below(26) as i64;
+        let mut plans: Vec<Vec<i64>> = vec![Vec::new(); nthreads];
+        for e in 1..=nevents {
+            plans[rng.below(nthreads as u64) as usize].push(e);
+        }
+        let emitted = Arc::new(AtomicUsize::new(0));
+        let nflush = Arc::new(AtomicUsize::new(0));
+        let in_emit: Vec<Arc<(AtomicU64, AtomicI64)>> = (0..nthreads).map(|_| Arc::new((AtomicU64::new(0), AtomicI64::new(0)))).collect();
+        let epoch = Instant::now();
+        let mut hs = Vec::new();
+        for (t, plan) in plans.into_iter().enumerate() {
+            let (files, trace, emitted, nflush, slot) = (files.clone(), trace.clone(), emitted.clone(), nflush.clone(), in_emit[t].clone());
+            let mut trng = Rng(rng.next());
+            hs.push(std::thread::spawn(move || {
+                for (k, e) in plan.into_iter().enumerate() {
+                    if trng.below(5) == 0 {
+                        let w = format!("w{t}_{k}");
+                        let timeout = [0u64, 5, 200][trng.below(3) as usize];
+                        log(&trace, json!({"ev": "FlushReq", "w": w}));
+                        let ret = files.blocking_flush(Duration::from_millis(timeout));
+                        log(&trace, json!({"ev": "FlushRet", "w": w, "ret": ret}));
+                        nflush.fetch_add(1, Ordering::SeqCst);
+                    }
+                    CURRENT_EVENT.with(|c| c.set(e));
+                    slot.1.store(e, Ordering::SeqCst);
+                    slot.0.store(epoch.elapsed().as_micros() as u64 + 1, Ordering::SeqCst);
+                    files.emit(emit::evt!("e", id: e));
+                    slot.0.store(0, Ordering::SeqCst);
+                    log(&trace, json!({"ev": "Emit", "e": e}));
+                    if let Some(n) = metric(&files, "file_queue_length") {
+                        log(&trace, json!({"ev": "QLen", "n": n}));
+                    }
+                    emitted.fetch_add(1, Ordering::SeqCst);
+                    for _ in 0..trng.below(4) {
+                        std::thread::yield_now();
+                    }
+                    if trng.below(6) == 0 {
+                        std::thread::sleep(Duration::from_micros(200 + trng.below(800)));
+                    }
+                }
+            }));
+        }
+
+        // the driver: releases the stall once enough emits went through it (or the emitters
+        // are done), and watches for an emit that does not return
+        let need = cap + 2;
+        let mut stall_seen: Option<(Instant, usize)> = None;
+        let mut blocked_reported = false;
+        loop {
+            let done = hs.iter().all(|h| h.is_finished());
+            if gate.is_stalled() {
+                let (since, base) = *stall_seen.get_or_insert((Instant::now(), emitted.load(Ordering::SeqCst)));
+                if done || emitted.load(Ordering::SeqCst) >= base + need || since.elapsed() > Duration::from_secs(6) {
+                    log(&trace, json!({"ev": "Unstall"}));
+                    gate.release();
+                    stall_seen = None;
+                }
+            }
+            if !blocked_reported {
+                let now = epoch.elapsed().as_micros() as u64;
+                for slot in &in_emit {
+                    let started = slot.0.load(Ordering::SeqCst);
+                    if started != 0 && now.saturating_sub(started) > 5_000_000 {
+                        log(&trace, json!({"ev": "EmitBlocked", "e": slot.1.load(Ordering::SeqCst)}));
+                        blocked_reported = true;
+                        if gate.is_stalled() {
+                            log(&trace, json!({"ev": "Unstall"}));
+                            gate.release();
+                        }
+                    }
+                }
+            }
+            if done {
+                break;
+            }
+            std::thread::sleep(Duration::from_micros(100));
+        }
+        for h in hs {
+            let _ = h.join();
+        }
+        if gate.is_stalled() {
+            log(&trace, json!({"ev": "Unstall"}));
+            gate.release();
+        }
+        // the final flush; a stall that only begins now is released at once
+        let fin = {
+            let (files, trace) = (files.clone(), trace.clone());
+            std::thread::spawn(move || {
+                log(&trace, json!({"ev": "FlushReq", "w": "final"}));
+                let ret = files.blocking_flush(Duration::from_secs(20));
+                log(&trace, json!({"ev": "FlushRet", "w": "final", "ret": ret}));
+            })
+        };
+        while !fin.is_finished() {
+            if gate.is_stalled() {
+                log(&trace, json!({"ev": "Unstall"}));
+                gate.release();
+            }
+            std::thread::sleep(Duration::from_micros(100));
+        }
+        let _ = fin.join();
+        let truncated = metric(&files, "file_queue_full_truncated").unwrap_or(usize::MAX >> 8);
+        log(&trace, json!({"ev": "Fin", "truncated": truncated}));
+        // shut the worker down before the next scenario
+        drop(files);
+        let t = Instant::now();
+        while !hooks.exec_returned.load(Ordering::SeqCst) && t.elapsed() < Duration::from_secs(10) {
+            if gate.is_stalled() {
+                gate.release();
+            }
+            std::thread::sleep(Duration::from_micros(200));
+        }
+        if !hooks.exec_returned.load(Ordering::SeqCst) {
+            tool_error("the worker thread of the previous scenario did not exit");
+        }
+        *hooks.trace.lock().unwrap() = None;
+
+        let mut evs = std::mem::take(&mut *trace.lock().unwrap());
+        evs.sort_by_key(|e| e.0);
+        writeln!(out, "{}", json!({"ev": "reset", "sid": sid, "cap": cap, "maxFiles": max_files, "maxSize": max_size,
+            "reuse": reuse, "lex": lex.label, "scen": scen})).unwrap();
+        for (_, v) in &evs {
+            writeln!(out, "{}", v).unwrap();
+        }
+        Meta { events: evs.len(), emits: nevents as usize, flushes: nflush.load(Ordering::SeqCst) + 1, wall_ms: t0.elapsed().as_millis() }
+    }
+
+    /// args: <scenarios.ndjson> <trace-out.ndjson> <index.json> [only-sid]
+    /// scenarios.ndjson: one {"sid":i,"scen":{...}} per line (the SCEN lines TLC printed,
+    /// selected and numbered by the driver); thread programs derive from VERIF_SEED and sid.
+    pub fn main_inj() {
+        use std::io::Write;
+        let args: Vec<String> = std::env::args().collect();
+        if args.len() < 4 {
+            tool_error("usage: <scenarios.ndjson> <trace-out.ndjson> <index.json> [only-sid]");
+        }
+        let only: Option<u64> = args.get(4).and_then(|s| s.parse().ok());
+        quiet_panics();
+        // 1 ms of channel delay (idle polling, retry back-off) lasts 2 us
+        emit_batcher::verif::set_delay_scale(2_000);
+        let hooks = Arc::new(ChanHooks { trace: Mutex::new(None), exec_returned: AtomicBool::new(false) });
+        emit_batcher::verif::install(Some(hooks.clone()));
+        let mut out = io::BufWriter::new(std::fs::File::create(&args[2]).unwrap());
+        let mut index = Vec::new();
+        let (mut events, mut emits, mut flushes) = (0usize, 0usize, 0usize);
+        for_each_case(&args[1], |_, line| {
+            let sid = line["sid"].as_u64().unwrap();
+            if only.map(|o| o != sid).unwrap_or(false) {
+                return;
+            }
+            let mut rng = Rng::from_env(0xE2E0_0000 + sid);
+            let m = run_scenario(&hooks, &line["scen"], sid, &mut rng, &mut out);
+            events += m.events;
+            emits += m.emits;
+            flushes += m.flushes;
+            index.push(json!({"sid": sid, "scen": line["scen"], "events": m.events, "wall_ms": m.wall_ms as u64}));
+        });
+        writeln!(out, "{}", json!({"ev": "fin"})).unwrap();
+        out.flush().unwrap();
+        emit_batcher::verif::install(None);
+        std::fs::write(&args[3], serde_json::to_string(&json!({"scenarios": index.len(), "events": events, "emits": emits,
+            "flushes": flushes, "index": index})).unwrap()).unwrap();
+    }
 }
